@@ -116,4 +116,19 @@ example :
       [.load 0 10, .load 1 10, .cas 0 false, .cas 1 false, .cas 1 false]
     r.1.usage = 100 := by decide
 
+/-! ### the two ingredients of the reservation loop are both needed (witnesses) -/
+
+/-- checking the limit against the loaded value and then *adding* to whatever the counter holds by
+now lets two writers through together (the self-made change `seeded/C13-s1`) -/
+theorem check_then_add_exceeds :
+    ([.load 0 6, .load 1 6, .cas 0, .cas 1].foldl Conc.Reserve.Broken.stepCheckThenAdd Conc.Reserve.Broken.start).usage = 12 :=
+  Conc.Reserve.Broken.check_then_add_exceeds
+
+/-- taking the observed value over after a lost compare-exchange *without checking again* lets a
+third writer through (seeded change C13-5); the loop as written refuses it on the same schedule -/
+theorem rebase_without_recheck_exceeds :
+    ([.load 0 4, .load 1 4, .load 2 4, .cas 0, .cas 1, .cas 1, .cas 2, .cas 2].foldl
+      Conc.Reserve.Broken.stepRebase Conc.Reserve.Broken.start).usage = 12 :=
+  Conc.Reserve.Broken.rebase_without_recheck_exceeds
+
 end Feox.C13
